@@ -33,6 +33,10 @@ use std::io::{BufRead, Write};
 
 fn worker_main() -> i32 {
     rt::install_panic_hook();
+    #[cfg(all(feature = "mock", sd_jwt_rs_verif))]
+    {
+        let _ = sd_jwt_rs::verif_hook::SCHED_POINT.set(rt::lock_point);
+    }
     profiles::install_logger();
     if let Err(e) = seams::self_test() {
         println!("{}", serde_json::json!({"fatal": format!("seam self-test failed: {}", e)}));
